@@ -215,6 +215,12 @@ Distinguishable ==
     /\ \A a, b \in Letters(cls) : a # b => Differ(cls, k, <<a>>, k, <<b>>)
     /\ MaxWord >= 2 => \A a, b \in Letters(cls) : a # b => Differ(cls, k, <<a, b>>, k, <<b, a>>)
 
+\* ids with at most one transformation applied are pairwise distinct units: the trace validation
+\* (CompositeTrace.tla) decodes such ids uniquely from proj_data and from aux_data
+ShortIds == (1..K) \X UNION {[1..m -> Letters(cls)] : m \in 0..1}
+ShortIdsInjective ==
+  (Len(w) <= 1 /\ ~WholeScale(cls)) => \A id \in ShortIds : id # <<k, w>> => Differ(cls, k, w, id[1], id[2])
+
 (***************************************************************************)
 (* One state per id                                                        *)
 (***************************************************************************)
